@@ -13,7 +13,7 @@ PROP = "C03"
 LEVEL = "exploration"
 SHARDS = {"quick": 4, "thorough": 16}
 THOROUGH_DEPTH = 6      # thorough tier = this many times the base thorough budget (VERIF_DEPTH overrides)
-TIME_CAP = {"quick": 200, "thorough": 2400}
+TIME_CAP = {"quick": 900, "thorough": 2400}
 KINDS = ["random", "consistent", "moving", "level", "inverted", "vertical", "pure-pitch", "pure-roll", "sparse", "integer", "near-special"]
 REGIONS = {"hist:" + k: 12 for k in KINDS}
 REGIONS["hist:long-fast"] = 3       # long recordings of a fast-turning sensor (recursive estimators only)
